@@ -126,7 +126,14 @@ Definition known_panic_classes : list (string * list Z) := [
   ("parquet/src/arrow/array_reader/byte_array.rs|attempt to divide by zero", pq_kinds);
   ("parquet/src/arrow/array_reader/map_array.rs|called `Result::unwrap()` on an `Err` value: Gen", pq_kinds);
   ("arrow-data/src/data.rs|called `Result::unwrap()` on an `Err` value: Try", ipc_kinds);
-  ("parquet/src/encodings/decoding.rs|attempt to subtract with overflow", pq_kinds)
+  ("parquet/src/encodings/decoding.rs|attempt to subtract with overflow", pq_kinds);
+  ("parquet-variant/src/decoder.rs|range end index", [9%Z]);
+  ("parquet/src/record/reader.rs|assertion `left == right` failed: Invalid list t", pq_kinds);
+  ("arrow-buffer/src/util/bit_util.rs|assertion `left != right` failed: slice must not", pq_kinds);
+  ("parquet/src/arrow/decoder/delta_byte_array.rs|attempt to add with overflow", pq_kinds);
+  ("parquet/src/util/bit_util.rs|assertion failed: size <= src.len()", pq_kinds);
+  ("parquet/src/column/page.rs|called `Option::unwrap()` on a `None` value", pq_kinds);
+  ("parquet/src/arrow/array_reader/fixed_len_byte_array.rs|attempt to divide by zero", pq_kinds)
 ].
 Fixpoint class_index (k : Z) (cls : list Z) (tbl : list (string * list Z)) (i : Z) : Z :=
   match tbl with
@@ -135,7 +142,8 @@ Fixpoint class_index (k : Z) (cls : list Z) (tbl : list (string * list Z)) (i : 
   end.
 (* kinds: 1 thrift list pre-allocation (abort, parquet); 2 declared-length allocation in the IPC readers (abort);
    3 Avro OCF reader no-progress loop (timeout); 4 parquet SchemaElement.num_children pre-allocation (abort);
-   5 Avro block decompression to a declared length beyond the allocation cap (abort); 10+i panic class i; 0 unknown *)
+   5 Avro block decompression to a declared length beyond the allocation cap (abort); 6 any other allocation abort in
+   a parquet reader (a size declared in a page / column chunk, not in the footer lists); 10+i panic class i; 0 unknown *)
 Definition classify (x out : list (list Z)) : Z :=
   let k := argz 0 x in
   let bs := bytes_of (arg 1 x) in
@@ -143,7 +151,7 @@ Definition classify (x out : list (list Z)) : Z :=
   if Z.eqb c 4 then
     (if existsb (Z.eqb k) pq_kinds then
        let foot := if Z.eqb k 5 then bs else pq_footer bs in
-       if has_oversize_list foot then 1%Z else if schema_children_oversize foot then 4%Z else 0%Z
+       if has_oversize_list foot then 1%Z else if schema_children_oversize foot then 4%Z else 6%Z
      else if existsb (Z.eqb k) ipc_kinds then 2%Z
      else if Z.eqb k 6 then 5%Z
      else 0%Z)
